@@ -102,17 +102,22 @@ const (
 var opNames = []string{"GetTemplate+Execute", "Parse+Execute", "AddGlobal", "LookupGlobal", "Execute(globals)", "loader.Set", "loader.Delete", "loader.Exists", "loader.Open", "Execute(volatile)", "Execute(dump)", "GetTemplate"}
 
 type op struct {
-	kind opKind
-	tmpl string
-	data int
-	key  string
-	val  string
+	kind  opKind
+	tmpl  string
+	data  int
+	fault int    // the fault-th fail() call of this execution raises an error (0: none)
+	tag   string // what that error says
+	key   string
+	val   string
 }
 
 func (o op) String() string {
 	return fmt.Sprintf("%s(%s%s%s)", opNames[o.kind], o.tmpl, o.key, func() string {
 		if o.val != "" {
 			return "=" + o.val
+		}
+		if o.fault > 0 {
+			return fmt.Sprintf(" fail#%d", o.fault)
 		}
 		return ""
 	}())
@@ -139,7 +144,15 @@ type world struct {
 	parseSrc map[string]string
 }
 
-func vars(d gen.DataSpec) jet.VarMap {
+// failPlan makes the at-th dynamic call of fail() in one execution raise an error that carries the
+// execution's own tag (so an error that surfaces in somebody else's execution is recognisable).
+type failPlan struct {
+	at    int
+	tag   string
+	calls int
+}
+
+func vars(d gen.DataSpec, fp *failPlan) jet.VarMap {
 	root := d.BuildRoot()
 	vm := jet.VarMap{}
 	vm.Set("root", root)
@@ -149,7 +162,18 @@ func vars(d gen.DataSpec) jet.VarMap {
 	vm.Set("s", "sv")
 	vm.Set("n", 3)
 	nop := jet.Func(func(a jet.Arguments) reflect.Value { return reflect.ValueOf("") })
-	vm.SetFunc("fail", nop)
+	vm.SetFunc("fail", func(a jet.Arguments) reflect.Value {
+		if fp != nil && fp.at > 0 {
+			fp.calls++
+			if fp.calls == fp.at {
+				if fp.at%2 == 0 {
+					panic("boom<" + fp.tag + ">") // a panic value that is not an error
+				}
+				panic(fmt.Errorf("boom<%s>", fp.tag))
+			}
+		}
+		return reflect.ValueOf("")
+	})
 	vm.SetFunc("mark", nop)
 	vm.SetFunc("letg", func(a jet.Arguments) reflect.Value {
 		a.Runtime().LetGlobal(a.Get(0).String(), a.Get(1).Interface())
@@ -187,7 +211,10 @@ func RunC11(env *sim.Env) {
 	jet.VerifResetStructFieldCache()
 	// ---- world
 	opts := gen.SwarmOptions(t)
-	opts.Probes, opts.ProbeExpr, opts.Dump = false, false, false
+	// half of the worlds contain fail() calls: executions of those are run with a per-execution fault
+	// plan, so that failing executions (try/catch, unwinding, Runtime release after an error) interleave too
+	withFaults := t.Choose(2) == 1
+	opts.Probes, opts.ProbeExpr, opts.Dump = withFaults, withFaults, false
 	opts.MaxStmts = t.Range(2, 4)
 	gw := gen.GenWorld(t, opts)
 	w := &world{files: gw.Files, stable: gw.Mains, alone: map[string]string{}, parseSrc: map[string]string{}}
@@ -211,7 +238,7 @@ func RunC11(env *sim.Env) {
 		}
 		return l
 	}
-	aloneExec := func(set *jet.Set, name string, d gen.DataSpec, parseSrc string) (string, bool) {
+	aloneExec := func(set *jet.Set, name string, d gen.DataSpec, parseSrc string, at int) (string, bool) {
 		var tm *jet.Template
 		var err error
 		if parseSrc != "" {
@@ -224,8 +251,12 @@ func RunC11(env *sim.Env) {
 		}
 		var buf strings.Builder
 		var xerr error
-		if pc := sim.Guard(func() { xerr = tm.Execute(&buf, vars(d), d.Data()) }); pc != nil {
+		fp := &failPlan{at: at, tag: "TAG"}
+		if pc := sim.Guard(func() { xerr = tm.Execute(&buf, vars(d, fp), d.Data()) }); pc != nil {
 			return "", false
+		}
+		if at > 0 && fp.calls < at {
+			return "", false // this execution does not reach that many fail() calls
 		}
 		e := ""
 		if xerr != nil {
@@ -235,10 +266,15 @@ func RunC11(env *sim.Env) {
 	}
 	for _, name := range w.stable {
 		for di, d := range w.datas {
-			set := jet.NewSet(newLoader())
-			set.AddGlobal("gc", "const")
-			if r, ok := aloneExec(set, name, d, ""); ok {
-				w.alone[fmt.Sprintf("%s|%d", name, di)] = r
+			for at := 0; at <= 3; at++ {
+				if at > 0 && !withFaults {
+					break
+				}
+				set := jet.NewSet(newLoader())
+				set.AddGlobal("gc", "const")
+				if r, ok := aloneExec(set, name, d, "", at); ok {
+					w.alone[fmt.Sprintf("%s|%d|%d", name, di, at)] = r
+				}
 			}
 		}
 	}
@@ -256,8 +292,8 @@ func RunC11(env *sim.Env) {
 	for name, src := range w.parseSrc {
 		for di, d := range w.datas {
 			set := jet.NewSet(newLoader())
-			if r, ok := aloneExec(set, name, d, src); ok {
-				w.alone[fmt.Sprintf("%s|%d", name, di)] = r
+			if r, ok := aloneExec(set, name, d, src, 0); ok {
+				w.alone[fmt.Sprintf("%s|%d|0", name, di)] = r
 			}
 		}
 	}
@@ -293,6 +329,8 @@ func RunC11(env *sim.Env) {
 				parts := strings.Split(k, "|")
 				o = op{kind: opGetExec, tmpl: parts[0]}
 				o.data, _ = strconv.Atoi(parts[1])
+				o.fault, _ = strconv.Atoi(parts[2])
+				o.tag = fmt.Sprintf("c%d.%d", c, i)
 				if _, isParse := w.parseSrc[parts[0]]; isParse {
 					o.kind = opParseExec
 					o.tmpl = fmt.Sprintf("/parsed%d.jet", c)
@@ -406,9 +444,13 @@ func RunC11(env *sim.Env) {
 		}
 		switch r.op.kind {
 		case opGetExec, opParseExec:
-			want, ok := w.alone[fmt.Sprintf("%s|%d", r.op.tmpl, r.op.data)]
+			want, ok := w.alone[fmt.Sprintf("%s|%d|%d", r.op.tmpl, r.op.data, r.op.fault)]
 			if !ok {
 				continue
+			}
+			want = strings.ReplaceAll(want, "TAG", r.op.tag)
+			if r.op.fault > 0 {
+				env.Stat("fault:function_error_in_concurrent_execution", 1)
 			}
 			got := norm(r.out) + "\x00" + norm(r.err)
 			if got != want {
@@ -467,7 +509,7 @@ func runOp(s *simrt.Sched, set *jet.Set, mem *jet.InMemLoader, w *world, c int, 
 	}
 	exec := func(tm *jet.Template, d gen.DataSpec) {
 		wr := &yieldWriter{s: s}
-		err := tm.Execute(wr, vars(d), d.Data())
+		err := tm.Execute(wr, vars(d, &failPlan{at: o.fault, tag: o.tag}), d.Data())
 		r.out = string(wr.buf)
 		if err != nil {
 			r.err = err.Error()
